@@ -29,6 +29,12 @@ fn validate_user_id(user_id: &str) -> AuthResult<()> {
         return Err(AuthError::InvalidUserId);
     }
 
+    // The frontends hand this id to the handlers when authentication is switched off, and the
+    // handlers skip every permission check for it: it must never name a real user.
+    if user_id == super::types::BYPASS_USER_ID {
+        return Err(AuthError::InvalidUserId);
+    }
+
     Ok(())
 }
 
